@@ -59,6 +59,7 @@ def run(ctx):
                                   (hc, hk, ti, mfcheck.pproj(exp)[:8], mfcheck.pproj(obs)[:8]),
                                   {"scenario": s, "tick": ti, "combo": [hc, hk], "expected": exp, "observed": obs, "unit_s": mfcheck.UNIT})
                     break
+    dec = decimal_part(ctx)
     nontriv = sum(1 for s in scns if any(len(mfcheck.pproj(mfcheck.expected_ops(tk))) >= 2 for tk in s["ticks"]))
     cov = {"states": stats["states"], "transitions": stats["transitions"],
            "traces_validated_against_impl": len(scns) * 3,
@@ -69,8 +70,69 @@ def run(ctx):
            "exhaustive": bool(stats.get("exhaustive_replayed_all")),
            "exhaustive_scope": "MC_MF_E1: every single tick from 7 start times x 7 output times x <=2 readings x max_dt in {1,2,3} units; "
                                "PlanTheorem (direction, bound, sum, emptiness) checked by TLC for all from,to in -40..40 and 8 max_dt values",
-           "tlc_runs": stats["tlc_runs"]}
+           "tlc_runs": stats["tlc_runs"], "decimal_grid": dec}
     return finish(ctx, LEVEL, cov, ASSUME)
+
+
+def decimal_part(ctx):
+    """(b) decimal, non-representable times: unit 0.01 s, max_dt in {0.01, 0.05, 0.1, 0.3}; travels recorded from both runtimes are
+    validated by TLC against PlanOK (MF_Trace.tla), the property's own statement with its own 1e-9 s slack."""
+    import tlc
+    import trace
+    import workers
+    import mfcpp
+    unit = 0.01
+    r = tlc.run("MC_MF_dec", mode="sim", workers=8, num=(40 if ctx.quick else 1500), depth=40, seed=ctx.seed + 5, timeout=900)
+    if r.violation:
+        ctx.violation("spec-invariant", r.violation[:500], {})
+    scns = r.printed
+    chunks = [scns[i::ctx.cores] for i in range(ctx.cores)]
+    chunks = [c for c in chunks if c]
+    res = workers.run_tasks([("tasks", "mf_decimal_batch", (c, unit), 900) for c in chunks], procs=ctx.cores)
+    traces, meta = [], []
+    for c, (status, outs) in zip(chunks, res):
+        if status != "ok":
+            raise RuntimeError(outs)
+        for s, evs in zip(c, outs):
+            traces.append(evs)
+            meta.append(("py", s))
+    # C++: same histories, driver built for the decimal unit
+    builds = mfcpp.build_all(ctx.work + "/", unit_expr="0.01", extra_defines=["MAXN_LIST(X)=X(1) X(5) X(10) X(30)"])
+    keys = sorted({rd["key"] for s in scns for tk in s["ticks"] for rd in tk["rs"]})
+    keyidx = {k: i for i, k in enumerate(keys)}
+    for (hc, hk), (exe, err) in sorted(builds.items()):
+        if exe is None:
+            ctx.violation("cpp:build:control=%d,calibration=%d" % (hc, hk), err[-400:], {})
+            continue
+        sel = [s for s in scns if bool(s["hasControl"]) == bool(hc)]
+        rets = mfcpp.run_combo(exe, sel, keyidx)
+        for si, s in enumerate(sel, start=1):
+            times, evs = [], []
+            for ti, tk in enumerate(s["ticks"], start=1):
+                if tk["refused"] or (hc and not tk["ctl"]):
+                    continue
+                n_prev = len(times)
+                times += [rd["t"] * unit for rd in tk["rs"]]
+                ops = rets.get((si, ti))
+                te = mfcheck.travel_events(ops or [], s["t0"] * unit, times, n_prev, tk["out"] * unit, s["max"] * unit) if ops is not None else None
+                if te is None:
+                    evs.append({"exception": "no / malformed result"})
+                    break
+                evs += te
+            traces.append(evs)
+            meta.append(("cpp[%d%d]" % (hc, hk), s))
+    clean = [[{k: e[k] for k in ("dir", "steps", "resid_ps")} if "exception" not in e else {"dir": 9, "steps": [], "resid_ps": 10 ** 9} for e in t] for t in traces]
+    verdicts, tres = trace.validate("MF_Trace", clean)
+    ntrav = 0
+    for (side, s), t, v in zip(meta, traces, verdicts):
+        ntrav += len(t)
+        if v is not None:
+            e = t[v]
+            back = e.get("dir") == -1
+            ctx.violation("%s:decimal-steps:%s" % (side.split("[")[0], "backward" if back else "forward"),
+                          "%s max_dt=%s: travel %s -> %s issued steps %s (PlanOK rejects: direction / bound / sum within 1e-9 s)" %
+                          (side, s["max"] * unit, e.get("start"), e.get("target"), e.get("dts", e.get("exception"))), {"scenario": s, "travel": e, "unit": unit})
+    return {"histories": len(scns), "traces": len(traces), "travels_validated": ntrav, "unit_s": unit, "max_dt_s": [0.01, 0.05, 0.1, 0.3]}
 
 
 def replay(ctx, path):
